@@ -118,12 +118,8 @@ theorem stages_notSaves {cfg : Cfg} (wf : WF cfg) (hm : cfg.fromSaves = true) (o
     intro e he; unfold paramsStage at he; cases rs <;> simp [eventsOf, evs] at he <;> rcases he with rfl | rfl <;> rfl
   · -- reference unpacked
     intro e he
-    have hp : e.path = .refFa := by
-      unfold refStage at he
-      split at he
-      · simp [eventsOf] at he
-      · simp [fixed, evs, eventsOf] at he; rcases he with rfl | rfl | rfl <;> rfl
-    rw [hp]; rfl
+    have hp := refStage_paths fixed cfg rs fs' e he
+    revert hp; cases e.path <;> simp [isRefAux, notSaves]
   · -- read-group split
     intro e he
     unfold rgStage at he
